@@ -741,6 +741,13 @@ MUTANTS += [
          expect="C14.R11"),
 ]
 NEUTRAL = [
+    dict(id="c14-n-r11", what="System.M memoises the converted constant mass matrix AND assemble() re-creates the memo", file=SYS,
+         edits=[(SYS, "        self.contributions_map = {}\n        self.ncontr = 0\n", "        self.contributions_map = {}\n        self.ncontr = 0\n        self._M0_formats = {}\n"),
+                (SYS, "    def M(self, t, q, format=\"coo\"):\n", "    def _M0_asformat(self, format):\n        if format not in self._M0_formats:\n            self._M0_formats[format] = self._M0.asformat(format)\n        return self._M0_formats[format]\n\n    def M(self, t, q, format=\"coo\"):\n"),
+                (SYS, "        self.nla_F = 0\n        q0 = []", "        self.nla_F = 0\n        self._M0_formats = {}\n        q0 = []")]),
+    dict(id="c14-n-r9", what="add(): uniqueness loop with a fresh counter", file=SYS,
+         old="                    suffix = self.ncontr\n                    new_name = contr.name + \"_contr\" + str(suffix)\n                    while new_name in self.contributions_map:\n                        suffix += 1\n                        new_name = contr.name + \"_contr\" + str(suffix)\n",
+         new="                    k = 0\n                    new_name = f\"{contr.name}_{k}\"\n                    while new_name in self.contributions_map:\n                        k += 1\n                        new_name = f\"{contr.name}_{k}\"\n"),
     dict(id="c14-n1", canary=True, what="rename loop-local and reformat", file=SYS,
          old="        for contr in self.__h_contr:\n            # unbuffered accumulation: uDOF repeats indices if an interaction acts twice on the same body\n            np.add.at(h, contr.uDOF, contr.h(t, q[contr.qDOF], u[contr.uDOF]))",
          new="        for c in self.__h_contr:\n            np.add.at(\n                h, c.uDOF, c.h(t, q[c.qDOF], u[c.uDOF])\n            )"),
